@@ -358,9 +358,10 @@ def pool_layer(on_submit=None, order_name="completion"):
 # numpy's public functions are `_ArrayFunctionDispatcher` instances: CrossHair normalises a call of such an object to
 # `type(obj).__call__` with the instance as binding target, so the patch key is that slot wrapper and the stub
 # dispatches on the instance.  Anything not in the table (and every call without symbolic arguments) reaches the
-# real numpy, where object-dtype arrays hand comparisons / arithmetic back to the symbolic values.
+# real numpy, where object-dtype arrays hand comparisons / arithmetic back to the symbolic values (np.array, np.all,
+# np.any, np.sum, ufuncs ... run for real).
 _DISPATCH = {id(_np.clip): s_clip, id(_np.argsort): s_argsort, id(_np.dot): s_dot, id(_np.average): s_average,
-             id(_np.all): s_all, id(_np.any): s_any}
+             }
 _DISPATCHER_CALL = type(_np.clip).__call__
 HITS = {}
 
@@ -376,18 +377,24 @@ def s_dispatcher(self, *a, **k):
 
 BASE_LAYER = {
     builtins.int: s_int, builtins.format: s_format, builtins.print: s_print,
-    _DISPATCHER_CALL: s_dispatcher, _np.array: s_array, _np.less_equal: s_less_equal,
+    _DISPATCHER_CALL: s_dispatcher,
 }
+
+
+def _seed_noop(self, seed=None):
+    return None
 
 
 class env:
     """with env(extra_layer, ...): installs BASE_LAYER + deny-by-default RNG + the extra layers (explore mode).
     In replay mode only layers passed as `replay_layers` are applied, by plain monkeypatching of the callee's owner
     (these are environment inputs such as recorded random draws, never repository code)."""
-    def __init__(self, *layers, rng_deny=True):
+    def __init__(self, *layers, rng_deny=True, allow_seed=False):
         self.layers = [dict(BASE_LAYER)]
         if rng_deny:
             self.layers.append(rng_deny_layer())
+        if allow_seed:
+            self.layers.append({_np.random.RandomState.seed: _seed_noop})
         self.layers.extend(layers)
 
     def __enter__(self):
